@@ -188,7 +188,7 @@ def cases(tier):
                 ('edge_node', 'face_edge', 'edge_face', 'face_face')]
     if not q:
         supplies += [('face_face',), ('edge_node', 'face_face'), ('edge_node', 'edge_face')]
-    meshes = ['tqp', 'qqq'] if q else ['tqp', 'qqq', 'tq', 'fan', 'block']
+    meshes = ['tqp', 'qqq', 'tq'] if q else ['tqp', 'qqq', 'tq', 'fan', 'block']
     for mesh in meshes:
         for supply in supplies:
             if ({'face_edge', 'edge_face'} & set(supply)) and 'edge_node' not in supply:
